@@ -4,48 +4,6 @@
 
 using namespace vf;
 
-namespace
-{
-    std::string cmp_upto_counts(const GraphState& a, const GraphState& b, bool compare_donors)
-    {
-        if (a.n != b.n)
-            return "size";
-        for (size_t i = 0; i < a.n; ++i)
-        {
-            if (a.rec_count[i] != b.rec_count[i])
-                return "receivers_count of node " + std::to_string(i) + ": snapshot " + std::to_string(a.rec_count[i]) + " prefix graph " + std::to_string(b.rec_count[i]);
-            if (a.rec_count[i] > a.rcols || b.rec_count[i] > b.rcols)
-                return "receivers_count of node " + std::to_string(i) + " exceeds the table width";
-            for (size_t k = 0; k < a.rec_count[i]; ++k)
-            {
-                if (R(a, i, k) != R(b, i, k))
-                    return "receiver " + std::to_string(k) + " of node " + std::to_string(i) + ": snapshot " + std::to_string(R(a, i, k)) + " prefix graph " + std::to_string(R(b, i, k));
-                if (!vg::biteq(D(a, i, k), D(b, i, k)))
-                    return "receiver distance of node " + std::to_string(i);
-                if (!vg::biteq(W(a, i, k), W(b, i, k)))
-                    return "receiver weight of node " + std::to_string(i) + ": snapshot " + vg::fmt(W(a, i, k)) + " prefix graph " + vg::fmt(W(b, i, k));
-            }
-            if (a.don_count[i] != b.don_count[i])
-                return "donors_count of node " + std::to_string(i) + ": snapshot " + std::to_string(a.don_count[i]) + " prefix graph " + std::to_string(b.don_count[i]);
-            if (compare_donors)
-            {
-                if (a.don_count[i] > a.dcols)
-                    return "donors_count exceeds the table width";
-                for (size_t k = 0; k < a.don_count[i]; ++k)
-                    if (DON(a, i, k) != DON(b, i, k))
-                        return "donor " + std::to_string(k) + " of node " + std::to_string(i) + ": snapshot " + std::to_string(DON(a, i, k)) + " prefix graph " + std::to_string(DON(b, i, k));
-            }
-        }
-        if (a.dfs != b.dfs)
-            return "dfs_indices";
-        if (a.bfs != b.bfs)
-            return "bfs_indices";
-        if (a.levels != b.levels)
-            return "bfs_levels";
-        return "";
-    }
-}
-
 static void check_case(vg::Src& s, vh::Ctx& c)
 {
     FlowOpts o;
